@@ -21,6 +21,7 @@ import (
 	"go/printer"
 	"go/token"
 	"path/filepath"
+	"regexp"
 	"strconv"
 	"strings"
 )
@@ -419,6 +420,156 @@ func (g *sjGen) emptySwitch(fd *ast.FuncDecl) (map[string]string, error) {
 	return res, nil
 }
 
+// toStringSwitch reads toString: which kind is spelled how (map keys go through it).
+func (g *sjGen) toStringSwitch(fd *ast.FuncDecl) (map[string]string, error) {
+	var sw *ast.SwitchStmt
+	for _, st := range fd.Body.List {
+		if s, ok := st.(*ast.SwitchStmt); ok {
+			if sw != nil {
+				return nil, sjErr("toString: more than one switch")
+			}
+			sw = s
+		}
+	}
+	if sw == nil || sw.Init != nil || sw.Tag == nil || g.src(sw.Tag) != "v.Kind()" {
+		return nil, sjErr("toString: expected `switch v.Kind()`")
+	}
+	if g.src(fd.Body.List[0]) != "v := valueOf(env, i)" {
+		return nil, sjErr("toString: first statement %s", g.src(fd.Body.List[0]))
+	}
+	res := map[string]string{}
+	seen := map[string]bool{}
+	for _, c := range sw.Body.List {
+		cc := c.(*ast.CaseClause)
+		body := g.src(cc.Body)
+		var br string
+		switch {
+		case cc.List == nil:
+			if !strings.HasPrefix(body, `return "", fmt.Errorf("cannot show value of type %s"`) {
+				return nil, sjErr("toString: default: %s", body)
+			}
+			br = "default"
+		case body == `return "", nil`:
+			br = "empty"
+		case body == `if v.Bool() { return "true", nil } return "false", nil`:
+			br = "bool"
+		case body == "return strconv.FormatInt(v.Int(), 10), nil":
+			br = "int"
+		case body == "return strconv.FormatUint(v.Uint(), 10), nil":
+			br = "uint"
+		case body == "return strconv.FormatFloat(v.Float(), 'f', -1, 32), nil":
+			br = "float32"
+		case body == "return strconv.FormatFloat(v.Float(), 'f', -1, 64), nil":
+			br = "float64"
+		case body == "return v.String(), nil":
+			br = "string"
+		case strings.HasPrefix(body, "c := v.Complex()"):
+			br = "complex"
+		default:
+			return nil, sjErr("toString: case %s: %s", g.src(cc.List), body)
+		}
+		if seen[br] && br != "complex" {
+			return nil, sjErr("toString: two %s cases", br)
+		}
+		seen[br] = true
+		if cc.List == nil {
+			continue
+		}
+		kinds, err := g.kindsOf(cc)
+		if err != nil {
+			return nil, err
+		}
+		for _, k := range kinds {
+			if _, dup := res[k]; dup {
+				return nil, sjErr("toString: kind %s in two cases", k)
+			}
+			res[k] = br
+		}
+	}
+	return res, nil
+}
+
+// fmtSegs splits a Sprintf format made of text, %0.Nd, %+0.Nd and %c.
+func fmtSegs(f string) (string, error) {
+	var parts []string
+	lit := ""
+	flush := func() {
+		if lit != "" {
+			parts = append(parts, ".lit "+sjLeanBytes(lit))
+			lit = ""
+		}
+	}
+	for i := 0; i < len(f); {
+		if f[i] != '%' {
+			lit += f[i : i+1]
+			i++
+			continue
+		}
+		flush()
+		rest := f[i:]
+		switch {
+		case strings.HasPrefix(rest, "%c"):
+			parts = append(parts, ".chr")
+			i += 2
+		case len(rest) >= 5 && strings.HasPrefix(rest, "%0.") && rest[3] >= '1' && rest[3] <= '9' && rest[4] == 'd':
+			parts = append(parts, fmt.Sprintf(".dec false %c", rest[3]))
+			i += 5
+		case len(rest) >= 6 && strings.HasPrefix(rest, "%+0.") && rest[4] >= '1' && rest[4] <= '9' && rest[5] == 'd':
+			parts = append(parts, fmt.Sprintf(".dec true %c", rest[4]))
+			i += 6
+		default:
+			return "", sjErr("showTimeInJS: verb in format %q", f)
+		}
+	}
+	flush()
+	return "[" + strings.Join(parts, ", ") + "]", nil
+}
+
+// timeLayout reads showTimeInJS as a whole: its text must be the expected one up to the four
+// format strings and the four year bounds, which are regenerated.
+func (g *sjGen) timeLayout(fd *ast.FuncDecl) (formats []string, bounds []string, err error) {
+	body := g.src(fd.Body)
+	var ints []string
+	ast.Inspect(fd.Body, func(n ast.Node) bool {
+		switch n := n.(type) {
+		case *ast.BasicLit:
+			if n.Kind == token.STRING {
+				if s, err := strconv.Unquote(n.Value); err == nil && strings.Contains(s, "%") {
+					formats = append(formats, s)
+					body = strings.Replace(body, n.Value, "FORMAT", 1)
+				}
+			}
+		}
+		return true
+	})
+	if len(formats) != 4 {
+		return nil, nil, sjErr("showTimeInJS: expected 4 format strings")
+	}
+	want := `{ y := tt.Year() if y < -B0 || y > B1 { panic("not representable year in JavaScript") } ` +
+		`ms := int64(tt.Nanosecond()) / int64(time.Millisecond) name, offset := tt.Zone() if name == "UTC" { ` +
+		`format := FORMAT if y < B2 || y > B3 { format = FORMAT } ` +
+		`return fmt.Sprintf(format, y, tt.Month(), tt.Day(), tt.Hour(), tt.Minute(), tt.Second(), ms) } ` +
+		`zone := offset / 60 sign := '+' if zone < 0 { sign = '-' zone = -zone } h, m := zone/60, zone%60 ` +
+		`format := FORMAT if y < B2 || y > B3 { format = FORMAT } ` +
+		`return fmt.Sprintf(format, y, tt.Month(), tt.Day(), tt.Hour(), tt.Minute(), tt.Second(), ms, sign, h, m) }`
+	// the four bounds, in the order they appear: -N0, N1, N2, N3 (twice)
+	re := regexp.MustCompile(`y < (-?[0-9]+) \|\| y > ([0-9]+)`)
+	ms := re.FindAllStringSubmatch(body, -1)
+	if len(ms) != 3 || ms[1][1] != ms[2][1] || ms[1][2] != ms[2][2] || !strings.HasPrefix(ms[0][1], "-") {
+		return nil, nil, sjErr("showTimeInJS: year comparisons %v", ms)
+	}
+	ints = []string{ms[0][1][1:], ms[0][2], ms[1][1], ms[1][2]}
+	w := want
+	w = strings.ReplaceAll(w, "B0", ints[0])
+	w = strings.ReplaceAll(w, "B1", ints[1])
+	w = strings.ReplaceAll(w, "B2", ints[2])
+	w = strings.ReplaceAll(w, "B3", ints[3])
+	if body != w {
+		return nil, nil, sjErr("showTimeInJS: body is not the expected one: %s", body)
+	}
+	return formats, []string{"-" + ints[0], ints[1], ints[2], ints[3]}, nil
+}
+
 // timeFormats reads showTimeInJS: all format strings must share the prefix up to and including
 // the opening quote, and the suffix from the closing quote.
 func (g *sjGen) timeFormats(fd *ast.FuncDecl) (string, string, error) {
@@ -468,7 +619,7 @@ func genShowJS(repo string) (string, error) {
 			}
 		}
 	}
-	for _, n := range []string{"showInJS", "showInJSON", "isEmptyValue", "showTimeInJS", "jsonStringEscape", "parseTagValue"} {
+	for _, n := range []string{"showInJS", "showInJSON", "isEmptyValue", "showTimeInJS", "jsonStringEscape", "parseTagValue", "toString"} {
 		if funcs[n] == nil {
 			return "", sjErr("function %s not found", n)
 		}
@@ -490,6 +641,14 @@ func genShowJS(repo string) (string, error) {
 	}
 	js.lit["timeOpen"], js.lit["timeClose"] = pre, suf
 	empty, err := g.emptySwitch(funcs["isEmptyValue"])
+	if err != nil {
+		return "", err
+	}
+	tsw, err := g.toStringSwitch(funcs["toString"])
+	if err != nil {
+		return "", err
+	}
+	tformats, tbounds, err := g.timeLayout(funcs["showTimeInJS"])
 	if err != nil {
 		return "", err
 	}
@@ -567,6 +726,24 @@ func genShowJS(repo string) (string, error) {
 		}
 		fmt.Fprintf(&o, "  | .%s => .%s\n", sjLeanKind(k), b)
 	}
+	o.WriteString("\n/-- the results of `toString` by kind (`default`: the error \"cannot show value\") -/\ninductive TSBranch\n  | empty | bool | int | uint | float32 | float64 | string | complex | default\n  deriving DecidableEq, Repr, Inhabited\n\n")
+	o.WriteString("/-- `switch v.Kind()` of toString (map keys that are not Stringers) -/\ndef toStringBranch : RKind → TSBranch\n")
+	for _, k := range sjKinds {
+		b, ok := tsw[k]
+		if !ok {
+			b = "default"
+		}
+		fmt.Fprintf(&o, "  | .%s => .%s\n", sjLeanKind(k), b)
+	}
+	o.WriteString("\n/-- a piece of a `fmt.Sprintf` format: text, `%0.Nd` / `%+0.Nd`, `%c` -/\ninductive FmtSeg\n  | lit (b : Bytes)\n  | dec (plus : Bool) (width : Nat)\n  | chr\n  deriving Repr\n\n")
+	for i, name := range []string{"jsDateUTC", "jsDateUTCExpanded", "jsDateZone", "jsDateZoneExpanded"} {
+		segs, err := fmtSegs(tformats[i])
+		if err != nil {
+			return "", err
+		}
+		fmt.Fprintf(&o, "/-- showTimeInJS: %q -/\ndef %s : List FmtSeg := %s\n\n", tformats[i], name, segs)
+	}
+	fmt.Fprintf(&o, "/-- showTimeInJS panics outside `jsYearMin ≤ y ≤ jsYearMax`; uses the expanded formats outside `jsYear4Min ≤ y ≤ jsYear4Max` -/\ndef jsYearMin : Int := %s\ndef jsYearMax : Int := %s\ndef jsYear4Min : Int := %s\ndef jsYear4Max : Int := %s\n", tbounds[0], tbounds[1], tbounds[2], tbounds[3])
 	o.WriteString("\nend ScriggoV.Gen.ShowJS\n")
 	return o.String(), nil
 }
